@@ -2,7 +2,7 @@
 //
 // Engine E2: the real answer.go / capability.go (instrumented copies) run
 // under the controlled scheduler.  All programs of 1-3 threads over a
-// 15-operation alphabet on a promise P, a second promise Q (join target) and a
+// 18-operation alphabet on a promise P, a second promise Q (join target) and a
 // result message holding two capabilities are enumerated; every schedule up to
 // the preemption bound is executed; the oracle checks exactly-once delivery
 // with the linearisation rule of the property, resolution, waiter release,
@@ -10,10 +10,10 @@
 package main
 
 import (
-	"time"
 	"context"
 	"fmt"
 	"strings"
+	"time"
 
 	capnp "capnproto.org/go/capnp/v3"
 	"capnproto.org/go/capnp/v3/internal/verif/vlib"
@@ -25,10 +25,11 @@ const (
 	tPCQ        // pipeline caller of Q
 	tA          // capability at path [0]
 	tB          // capability at path [1,0]
+	tPCS        // pipeline caller of S
 	nTargets
 )
 
-var targetNames = []string{"PC_P", "PC_Q", "capA", "capB"}
+var targetNames = []string{"PC_P", "PC_Q", "capA", "capB", "PC_S"}
 
 type event struct {
 	kind   string // opstart opend deliver shutdown
@@ -40,7 +41,8 @@ type event struct {
 type world struct {
 	ev       []event
 	curOp    map[int]int
-	P, Q     *capnp.Promise
+	P, Q, S  *capnp.Promise
+	savedP   [2]*capnp.Client // pipelined clients obtained from P by any thread
 	msg      *capnp.Message
 	result   capnp.Ptr
 	doneThr  int
@@ -123,11 +125,14 @@ const (
 	opQSendA
 	opRelease
 	opStruct
+	opQJoinS
+	opSFulfill
+	opSReject
 	nOps
 )
 
 var opNames = []string{"P.Send[0]", "P.Send[1,0]", "P.Recv[0]", "a=P.Client[0]", "b=P.Client[1,0]", "a.SendCall", "b.SendCall",
-	"P.Fulfill", "P.Reject", "P.Join(Q)", "Q.Fulfill", "Q.Reject", "Q.Send[0]", "P.ReleaseClients", "P.Struct"}
+	"P.Fulfill", "P.Reject", "P.Join(Q)", "Q.Fulfill", "Q.Reject", "Q.Send[0]", "P.ReleaseClients", "P.Struct", "Q.Join(S)", "S.Fulfill", "S.Reject"}
 
 var pathA = []capnp.PipelineOp{{Field: 0}}
 var pathB = []capnp.PipelineOp{{Field: 1}, {Field: 0}}
@@ -147,53 +152,66 @@ func (p program) String() string {
 }
 
 func isPRes(o int) bool { return o == opFulfill || o == opReject || o == opJoin }
-func isQRes(o int) bool { return o == opQFulfill || o == opQReject }
+func isQRes(o int) bool { return o == opQFulfill || o == opQReject || o == opQJoinS }
+func isSRes(o int) bool { return o == opSFulfill || o == opSReject }
 
 // valid: at most one resolution op per promise (API contract); blocking
 // waits (ReleaseClients, Struct) only when the promise is eventually
 // resolved by the program and never before the resolving op in the same
 // thread.
 func (p program) valid() bool {
-	nP, nQ := 0, 0
-	pThread, qThread := -1, -1
-	join := false
-	for ti, th := range p {
+	n := [3]int{}
+	var resOps [3]int
+	for i := range resOps {
+		resOps[i] = -1
+	}
+	for _, th := range p {
 		for _, o := range th {
-			if isPRes(o) {
-				nP++
-				pThread = ti
-				if o == opJoin {
-					join = true
-				}
-			}
-			if isQRes(o) {
-				nQ++
-				qThread = ti
+			switch {
+			case isPRes(o):
+				n[0]++
+				resOps[0] = o
+			case isQRes(o):
+				n[1]++
+				resOps[1] = o
+			case isSRes(o):
+				n[2]++
+				resOps[2] = o
 			}
 		}
 	}
-	if nP > 1 || nQ > 1 {
+	if n[0] > 1 || n[1] > 1 || n[2] > 1 {
 		return false
 	}
-	for ti, th := range p {
-		seenP, seenQ := false, false
+	// does the program resolve P eventually?
+	resolved := func() bool {
+		switch resOps[0] {
+		case opFulfill, opReject:
+			return true
+		case opJoin:
+			switch resOps[1] {
+			case opQFulfill, opQReject:
+				return true
+			case opQJoinS:
+				return resOps[2] >= 0
+			}
+		}
+		return false
+	}()
+	for _, th := range p {
+		// a blocking wait must come after every resolving operation of its own thread
+		pending := 0
 		for _, o := range th {
-			if isPRes(o) {
-				seenP = true
+			if isPRes(o) || isQRes(o) || isSRes(o) {
+				pending++
 			}
-			if isQRes(o) {
-				seenQ = true
+		}
+		for _, o := range th {
+			if isPRes(o) || isQRes(o) || isSRes(o) {
+				pending--
 			}
-			if o == opRelease || o == opStruct {
-				if nP == 0 || (join && nQ == 0) {
-					return false
-				}
-				if ti == pThread && !seenP {
-					return false
-				}
-				if join && ti == qThread && !seenQ {
-					return false
-				}
+			if (o == opRelease || o == opStruct) && (!resolved || pending > 0) {
+				return false
 			}
 		}
 	}
@@ -252,6 +270,7 @@ func setup(w *world) {
 	w.result = root.ToPtr()
 	w.P = capnp.NewPromise(capnp.Method{InterfaceID: 1, MethodID: 1}, &recCaller{tPCP, w})
 	w.Q = capnp.NewPromise(capnp.Method{InterfaceID: 1, MethodID: 2}, &recCaller{tPCQ, w})
+	w.S = capnp.NewPromise(capnp.Method{InterfaceID: 1, MethodID: 3}, &recCaller{tPCS, w})
 }
 
 func runProgram(p program, w *world, res [][]opResult, epi *string) {
@@ -284,31 +303,55 @@ func runProgram(p program, w *world, res [][]opResult, epi *string) {
 	}
 	body(0)
 	vsched.WaitUntil("threads", func() bool { return w.doneThr == len(p) })
-	// epilogue: resolve what the program left unresolved, release proxies,
-	// then drop the result message's own references.
-	hasP, hasQ, join := false, false, false
+	// epilogue: resolve what the program left unresolved; the owners of the
+	// other promises release their clients; the pipelined clients obtained
+	// from P must still work until P itself calls ReleaseClients; then P
+	// releases, and the result message drops its own references.
+	has := [3]bool{}
+	pRelease := false
 	for _, th := range p {
 		for _, o := range th {
-			if isPRes(o) {
-				hasP = true
-			}
-			if isQRes(o) {
-				hasQ = true
-			}
-			if o == opJoin {
-				join = true
+			switch {
+			case isPRes(o):
+				has[0] = true
+			case isQRes(o):
+				has[1] = true
+			case isSRes(o):
+				has[2] = true
+			case o == opRelease:
+				pRelease = true
 			}
 		}
 	}
-	_ = join
-	if !hasQ {
+	w.curOp[vsched.Tid()] = 99 // epilogue probe op id
+	if !has[2] {
+		w.S.Fulfill(w.result)
+	}
+	if !has[1] {
 		w.Q.Fulfill(w.result)
 	}
-	if !hasP {
+	if !has[0] {
 		w.P.Fulfill(w.result)
 	}
-	w.P.ReleaseClients()
+	w.S.ReleaseClients()
 	w.Q.ReleaseClients()
+	if !pRelease {
+		for i, c := range w.savedP {
+			if c == nil {
+				continue
+			}
+			ans, rel := c.SendCall(context.Background(), capnp.Send{Method: capnp.Method{InterfaceID: 7, MethodID: 8}})
+			_, err := ans.Struct()
+			cls := classify(err)
+			rel()
+			want := []string{"capA", "capB"}[i]
+			if cls != want && cls != "rejected" {
+				*epi = fmt.Sprintf("proxy-released-early\x00a pipelined client obtained from P was used after the owners of the joined promises called ReleaseClients but before P did: result %q, want delivery to %s (or the rejection error)", cls, want)
+				return
+			}
+		}
+	}
+	w.P.ReleaseClients()
 	if w.shutdown[tA] != 0 || w.shutdown[tB] != 0 {
 		*epi = fmt.Sprintf("early-shutdown\x00capability in the result shut down (A=%d B=%d) while the result message still holds its reference", w.shutdown[tA], w.shutdown[tB])
 		return
@@ -317,7 +360,7 @@ func runProgram(p program, w *world, res [][]opResult, epi *string) {
 		c.Release()
 	}
 	if w.shutdown[tA] != 1 || w.shutdown[tB] != 1 {
-		*epi = fmt.Sprintf("proxy-leak\x00after ReleaseClients on P and Q and release of the result message's own references, Shutdown counts are A=%d B=%d (want 1,1): pipelined proxy clients still hold references", w.shutdown[tA], w.shutdown[tB])
+		*epi = fmt.Sprintf("proxy-leak\x00after ReleaseClients on P, Q and S and release of the result message's own references, Shutdown counts are A=%d B=%d (want 1,1): pipelined proxy clients still hold references", w.shutdown[tA], w.shutdown[tB])
 	}
 }
 
@@ -346,20 +389,30 @@ func doOp(o int, w *world, saved *[2]*capnp.Client, r *opResult) {
 		}
 	case opClientA:
 		saved[0] = w.P.Answer().Field(0, nil).Client()
+		w.savedP[0] = saved[0]
 		r.info = "got"
 	case opClientB:
 		saved[1] = w.P.Answer().Field(1, nil).Field(0, nil).Client()
+		w.savedP[1] = saved[1]
 		r.info = "got"
 	case opCallSavedA:
 		if saved[0] == nil {
 			saved[0] = w.P.Answer().Field(0, nil).Client()
+			w.savedP[0] = saved[0]
 		}
 		send(saved[0].SendCall(ctx, capnp.Send{Method: meth}))
 	case opCallSavedB:
 		if saved[1] == nil {
 			saved[1] = w.P.Answer().Field(1, nil).Field(0, nil).Client()
+			w.savedP[1] = saved[1]
 		}
 		send(saved[1].SendCall(ctx, capnp.Send{Method: meth}))
+	case opQJoinS:
+		w.Q.Join(w.S.Answer())
+	case opSFulfill:
+		w.S.Fulfill(w.result)
+	case opSReject:
+		w.S.Reject(errReject)
 	case opFulfill:
 		w.P.Fulfill(w.result)
 	case opReject:
@@ -426,15 +479,57 @@ func judge(p program, w *world, res [][]opResult, vr *vsched.Result, epi string)
 		}
 		return span{}, -1, false
 	}
-	pres, presOp, hasP := find(isPRes)
-	qres, qresOp, hasQ := find(isQRes)
 	never := span{1 << 30, 1 << 30}
-	if !hasP {
-		pres = never
+	// chain P --Join--> Q --Join--> S
+	var resSpan [3]span
+	var resOp [3]int
+	preds := []func(int) bool{isPRes, isQRes, isSRes}
+	for i := range resSpan {
+		sp, op, ok := find(preds[i])
+		if !ok {
+			sp, op = never, -1
+		}
+		resSpan[i], resOp[i] = sp, op
 	}
-	if !hasQ {
-		qres = never
+	isJoin := func(i int) bool { return resOp[i] == opJoin || resOp[i] == opQJoinS }
+	isFul := func(i int) bool { return resOp[i] == opFulfill || resOp[i] == opQFulfill || resOp[i] == opSFulfill }
+	isRej := func(i int) bool { return resOp[i] == opReject || resOp[i] == opQReject || resOp[i] == opSReject }
+	pcTarget := []int{tPCP, tPCQ, tPCS}
+	// allowed computes, for a call x made on promise i0, which pipeline callers
+	// may legally receive it and whether the result capability / the rejection
+	// error are legal outcomes.
+	allowed := func(i0 int, x span) (pcs map[int]bool, capOK, rejOK bool) {
+		pcs = map[int]bool{}
+		for i := i0; i < 3; i++ {
+			if !(resSpan[i].end < x.start) {
+				pcs[pcTarget[i]] = true
+			}
+			if !(resSpan[i].start < x.end) {
+				break // this promise's resolution had not started: the call cannot have gone further
+			}
+			if isFul(i) {
+				capOK = true
+			}
+			if isRej(i) {
+				rejOK = true
+			}
+			if !isJoin(i) {
+				break
+			}
+		}
+		return
 	}
+	finalRejected := func() bool {
+		for i := 0; i < 3; i++ {
+			if isRej(i) {
+				return true
+			}
+			if !isJoin(i) {
+				return false
+			}
+		}
+		return false
+	}()
 	for ti, th := range p {
 		for pi, o := range th {
 			r := res[ti][pi]
@@ -447,7 +542,7 @@ func judge(p program, w *world, res [][]opResult, vr *vsched.Result, epi string)
 			}
 			x := spans[opid]
 			wantCap := -1
-			onQ := false
+			on := 0
 			switch o {
 			case opSendA, opRecvA, opCallSavedA:
 				wantCap = tA
@@ -455,12 +550,10 @@ func judge(p program, w *world, res [][]opResult, vr *vsched.Result, epi string)
 				wantCap = tB
 			case opQSendA:
 				wantCap = tA
-				onQ = true
+				on = 1
 			case opStruct:
-				// after resolution: result unless rejected
-				rejected := presOp == opReject || (presOp == opJoin && qresOp == opQReject)
 				want := "result"
-				if rejected {
+				if finalRejected {
 					want = "rejected"
 				}
 				if r.info != want {
@@ -470,7 +563,6 @@ func judge(p program, w *world, res [][]opResult, vr *vsched.Result, epi string)
 			default:
 				continue
 			}
-			// deliveries attributed to this op
 			var del []event
 			for _, e := range w.ev {
 				if e.kind == "deliver" && e.op == opid {
@@ -480,15 +572,10 @@ func judge(p program, w *world, res [][]opResult, vr *vsched.Result, epi string)
 			if len(del) > 1 {
 				return "delivered-twice", fmt.Sprintf("thread %d op %s delivered %d times", ti, opNames[o], len(del))
 			}
-			// conditions
-			pStartedBeforeEnd := pres.start < x.end
-			pEndedBeforeStart := pres.end < x.start
-			qStartedBeforeEnd := qres.start < x.end
-			qEndedBeforeStart := qres.end < x.start
-			joinStarted := presOp == opJoin && pStartedBeforeEnd
+			pcs, capOK, rejOK := allowed(on, x)
 			if len(del) == 0 && strings.Contains(r.info, "released client") && (o == opCallSavedA || o == opCallSavedB) {
 				// a pipelined client is borrowed from the promise; using it
-				// after ReleaseClients has started is outside the contract
+				// after P.ReleaseClients has started is outside the contract
 				okRel := false
 				for tj, th2 := range p {
 					for pj, o2 := range th2 {
@@ -505,14 +592,8 @@ func judge(p program, w *world, res [][]opResult, vr *vsched.Result, epi string)
 				if r.info != "rejected" {
 					return "call-lost", fmt.Sprintf("thread %d op %s: not delivered anywhere, result %q", ti, opNames[o], r.info)
 				}
-				ok := false
-				if onQ {
-					ok = qresOp == opQReject && qStartedBeforeEnd
-				} else {
-					ok = (presOp == opReject && pStartedBeforeEnd) || (joinStarted && qresOp == opQReject && qStartedBeforeEnd)
-				}
-				if !ok {
-					return "spurious-rejection", fmt.Sprintf("thread %d op %s failed with the rejection error although no Reject had started", ti, opNames[o])
+				if !rejOK {
+					return "spurious-rejection", fmt.Sprintf("thread %d op %s failed with the rejection error although no Reject on its promise chain had started", ti, opNames[o])
 				}
 				continue
 			}
@@ -521,32 +602,16 @@ func judge(p program, w *world, res [][]opResult, vr *vsched.Result, epi string)
 				return "answer-mismatch", fmt.Sprintf("thread %d op %s delivered to %s but the caller's answer came from %q", ti, opNames[o], targetNames[d.target], r.info)
 			}
 			switch d.target {
-			case tPCP:
-				if onQ {
-					return "wrong-target", fmt.Sprintf("thread %d op %s delivered to P's pipeline caller", ti, opNames[o])
-				}
-				if pEndedBeforeStart {
-					return "stale-pipeline-call", fmt.Sprintf("thread %d op %s was made after P's %s had returned but went to P's pipeline caller", ti, opNames[o], opNames[presOp])
-				}
-			case tPCQ:
-				if !onQ && !joinStarted {
-					return "wrong-target", fmt.Sprintf("thread %d op %s delivered to Q's pipeline caller without a Join", ti, opNames[o])
-				}
-				if qEndedBeforeStart && (onQ || pEndedBeforeStart) {
-					return "stale-pipeline-call", fmt.Sprintf("thread %d op %s was made after Q's resolution returned but went to Q's pipeline caller", ti, opNames[o])
+			case tPCP, tPCQ, tPCS:
+				if !pcs[d.target] {
+					return "stale-or-wrong-pipeline-call", fmt.Sprintf("thread %d op %s went to %s; legal pipeline callers at that time: %v", ti, opNames[o], targetNames[d.target], pcs)
 				}
 			case tA, tB:
 				if d.target != wantCap {
 					return "wrong-target", fmt.Sprintf("thread %d op %s delivered to %s", ti, opNames[o], targetNames[d.target])
 				}
-				ok := false
-				if onQ {
-					ok = qresOp == opQFulfill && qStartedBeforeEnd
-				} else {
-					ok = (presOp == opFulfill && pStartedBeforeEnd) || (joinStarted && qresOp == opQFulfill && qStartedBeforeEnd)
-				}
-				if !ok {
-					return "premature-delivery", fmt.Sprintf("thread %d op %s reached the result capability before any Fulfill started", ti, opNames[o])
+				if !capOK {
+					return "premature-delivery", fmt.Sprintf("thread %d op %s reached the result capability before any Fulfill on its promise chain started", ti, opNames[o])
 				}
 			}
 		}
@@ -615,9 +680,9 @@ func opClass(o int) string {
 		return "proxycall"
 	case o == opSendA || o == opSendB || o == opRecvA || o == opQSendA:
 		return "pipelinecall"
-	case o == opJoin:
+	case o == opJoin || o == opQJoinS:
 		return "join"
-	case isPRes(o) || isQRes(o):
+	case isPRes(o) || isQRes(o) || isSRes(o):
 		return "resolve"
 	case o == opClientA || o == opClientB:
 		return "client"
@@ -789,10 +854,10 @@ func renderEvents(p program, w *world) string {
 
 func main() {
 	vlib.Main(vlib.Spec{
-		ID:    "C11",
-		Level: "model_checking",
+		ID:          "C11",
+		Level:       "model_checking",
 		CaseTimeout: 30 * time.Minute,
-		Rule:  "programs = all valid assignments of operation sequences (15-op alphabet: PipelineSend/PipelineRecv on paths [0] and [1,0], Future.Client() incl. repeated requests for the same path, calls through saved pipelined clients, Fulfill, Reject, Join(Q), Q.Fulfill/Reject/Send, ReleaseClients, Struct) to 1-3 symmetric threads, followed by a fixed epilogue (resolve what is unresolved, ReleaseClients on both promises, release the result message's capability table); for each program all schedules of the real answer.go/capability.go up to the preemption bound. Non-trivial = more than one schedule or outcome. states = sum over programs of distinct scheduling configurations; transitions = scheduling steps; traces = executions on the implementation.",
+		Rule:        "programs = all valid assignments of operation sequences (18-op alphabet: PipelineSend/PipelineRecv on paths [0] and [1,0], Future.Client() incl. repeated requests for the same path, calls through saved pipelined clients, Fulfill, Reject, Join(Q), Q.Fulfill/Reject/Send/Join(S), S.Fulfill/Reject, ReleaseClients, Struct) to 1-3 symmetric threads, followed by a fixed epilogue (resolve what is unresolved, ReleaseClients on both promises, release the result message's capability table); for each program all schedules of the real answer.go/capability.go up to the preemption bound. Non-trivial = more than one schedule or outcome. states = sum over programs of distinct scheduling configurations; transitions = scheduling steps; traces = executions on the implementation.",
 		Assumptions: []string{
 			"scheduling points at every sync operation are sufficient (data-race freedom checked separately by a free-running -race pass, which decides nothing)",
 			"API contract filter: at most one of Fulfill/Reject/Join per promise; blocking waits only in programs that eventually resolve the promise",
